@@ -273,6 +273,25 @@ def run(R):
                         R.violation({"table": list(table), "db": wc.enc_db(db), "bulk": bulk, "level": level, "variant": "bulktable", "cells": [[c, list(x)] for (c, x) in sorted(cells)]}, "table() and bulktable(%d) disagree" % bulk)
                 run_one(R, level, table, entry, cells, db, "pybulktable", 3, "long-index")
             R.mon["long_index_tables"] += 1
+    if R.shard == 2 % R.nshards:
+        # cells whose OIDs collide in the low 32 bits of their (string) hash under this
+        # interpreter's hash seed: both are cells of the table
+        table = (1, 3, 6, 1, 4, 1, 4242, 8)
+        entry = table + (1,)
+        pairs = gen.colliding_oid_pairs(entry, bits=32)
+        R.notes["hash_collision_pairs_found"] = len(pairs)
+        if pairs:
+            cells = {}
+            for a, b in pairs:
+                for o in (a, b):
+                    cells[(o[len(entry)], o[len(entry) + 1:])] = ("int", o[-1])
+            for col in (1, 2):
+                for r in (1, 2, 3):
+                    cells[(col, (r,))] = ("int", r)
+            db = {entry + (c,) + r: v for (c, r), v in cells.items()}
+            for variant, bulk in (("table", None), ("bulktable", 3), ("bulktable", 50)):
+                run_one(R, "v2c", table, entry, cells, db, variant, bulk, "hash-collision")
+            R.mon["hash_collision_tables"] += 1
     if R.shard == 0:
         # v1 speaks GETNEXT only: table() must work there too
         rng = R.rng("v1")
